@@ -97,6 +97,25 @@ Theorem c06_read_changes_nothing : forall coro e o k s,
 Proof. exact read_changes_nothing. Qed.
 Print Assumptions c06_read_changes_nothing.
 
+(* exception paths: an add() whose array allocation throws std::bad_alloc changes nothing and does not take the handle *)
+Theorem c06_failed_add_changes_nothing : forall coro e o h s,
+  get (objs e) o = Some s -> 0 < h ->
+  (if sp_flag s then sp_count s =? cap s else negb (sp_count s <? inline_count)) = true ->
+  let r := step coro e (OAddFail o h) in
+  fst r = e /\ o_st (snd r) = 2 /\ o_size (snd r) = sp_count s /\ handed_op (OAddFail o h) (snd r) = [] /\ o_res (snd r) = [].
+Proof. exact failed_add_changes_nothing. Qed.
+Print Assumptions c06_failed_add_changes_nothing.
+
+(* ... and a create_suspend_point whose callback throws loses neither the coroutines already queued nor the ones it readied
+   (they are also covered by c06_conservation: the op hands in l) *)
+Theorem c06_throwing_create_loses_nothing : forall coro e o t v l,
+  forallb (fun h => 0 <? h) l = true -> get (objs e) o = None ->
+  let r := step coro e (OCreateThrow o t v l) in
+  objs (fst r) = objs e /\ o_st (snd r) = 0 /\
+  if coro then queue (fst r) = queue e ++ l /\ o_res (snd r) = [] else queue (fst r) = queue e /\ o_res (snd r) = l.
+Proof. exact throwing_create_loses_nothing. Qed.
+Print Assumptions c06_throwing_create_loses_nothing.
+
 (* the decidable trace property used on the implementation's output holds of every closed run of the model *)
 Theorem c06_oracle_sound : forall coro ops,
   let r := run_from coro env0 (map decode ops) in
